@@ -372,3 +372,79 @@ func TestVerifC02(t *testing.T) {
 		w.Extra[k] = v
 	}
 }
+
+// c03Key classifies a case by the known deviations it exhibits (used as finding key):
+//   all-filtered : cache recovery scanned a non-empty history in which every scanned publication is
+//                  excluded by the tags filters, and the client is not at the current position
+//   zero-position: the client presents (0, current epoch) to an empty stream with top 0
+func c03Key(run *c02Run, lim int) string {
+	key := ""
+	for _, st := range run.steps {
+		if st.Kind != "cache" || st.Res == nil || st.Res.Err != 0 {
+			continue
+		}
+		items, top, epc := st.Full.Items, st.Full.Off, st.Full.Ep
+		if st.Handler == "populate" && st.Full2 != nil && len(st.Full.Items) == 0 {
+			items, top, epc = st.Full2.Items, st.Full2.Off, st.Full2.Ep
+		}
+		same := st.Off == top && st.Ep == epc && st.Ep != 0
+		if (st.UseS || st.UseC) && len(items) > 0 && !same {
+			filtered := map[uint64]bool{}
+			for _, id := range st.Filt {
+				filtered[id] = true
+			}
+			scan := items
+			if lim > 0 && len(scan) > lim {
+				scan = scan[len(scan)-lim:]
+			}
+			all := true
+			for _, it := range scan {
+				if !filtered[it[1]] {
+					all = false
+				}
+			}
+			if all && !st.Res.Recovered {
+				return "all-filtered"
+			}
+		}
+		if same && st.Off == 0 && len(items) == 0 && !st.Res.Recovered {
+			key = "zero-position"
+		}
+	}
+	return key
+}
+
+func TestVerifC03(t *testing.T) {
+	w := verifOpen(t, "C03")
+	defer w.Close()
+	totals := map[string]int{}
+	for i := 0; i < w.N; i++ {
+		if !w.Want(i) {
+			continue
+		}
+		run, lim := c02Case(t, w, i, true)
+		class := "lim" + strconv.Itoa(lim)
+		if run.recTrue > 0 {
+			class += "/rec"
+		}
+		if run.recFalse > 0 {
+			class += "/norec"
+		}
+		if run.populated > 0 {
+			class += "/populated"
+		}
+		key := c03Key(run, lim)
+		if key != "" {
+			class += "/" + key
+		}
+		totals["recovered_true"] += run.recTrue
+		totals["recovered_false"] += run.recFalse
+		totals["error_replies"] += run.errs
+		totals["with_publication"] += run.withPubs
+		totals["handler_populated"] += run.populated
+		c02Emit(w, i, run, lim, class, run.recTrue > 0 && run.recFalse > 0 && run.withPubs > 0, key)
+	}
+	for k, v := range totals {
+		w.Extra[k] = v
+	}
+}
